@@ -215,7 +215,7 @@ def run(tier, seed, replay=None):
         fresh_root, classes = dslgen.build(doc)
         for name, cls in classes.items():
             stats["classes"] += 1
-            cvals = [gen.gen_value(rng, dslgen.spec_schema(doc, {"k": "Ref", "name": name})) for _ in range(6)] + [v for v in TEMPLATE_VALUES if isinstance(v, dict)][:8]
+            cvals = [gen.gen_value(rng, dslgen.spec_schema(doc, {"k": "Ref", "name": name})) for _ in range(6)] + [v for v in TEMPLATE_VALUES if isinstance(v, dict)]
             cvals = cvals + [f for f in (gen.floatify(v) for v in cvals[:8]) if f is not None][:4]
             insts = []
             for v in cvals:
